@@ -526,6 +526,25 @@ func (e *specEnv) selectField(base Val, name string) Val {
 		// reference, if not nil, is a map of the field's type (see wf)
 		tr.raw("(assert " + tr.wf(cur) + ")")
 	}
+	if tr.pure == 0 && !strings.Contains(cur.T, "q_") {
+		// heap well-formedness (the fact every load in the code gets): a reference stored in the heap of
+		// a state was allocated before that state -- stated for references a specification reads
+		bound := e.curA
+		if e.heap == e.old {
+			bound = e.oldA
+		}
+		if bound != "" && bound != "0" {
+			if f := tr.belowAlloc(cur, bound); f != "true" {
+				tr.raw("(assert " + f + ")")
+			}
+			if _, isMap := cur.Ty.Underlying().(*types.Map); !isMap {
+				// and it is a well-formed value of its type (slice bounds, interface nil-ness)
+				if f := tr.wf(cur); f != "true" {
+					tr.raw("(assert " + f + ")")
+				}
+			}
+		}
+	}
 	return cur
 }
 
